@@ -47,7 +47,7 @@ class RefDeps:
                 if p is None:
                     self.unresolved.append((fid, ref))
                 elif not any(e[0] == fid for e in self.own[p]):
-                    self.own[p].append((fid, "end", 0))
+                    self.own[p].append((fid, kind, gap))   # the options of the precedes statement belong to the edge
 
     @staticmethod
     def _parts(d):
